@@ -43,6 +43,8 @@ inductive Op
   | req (src id target : Nat) (path : List Nat)
   | resp (id : Nat) (ok : Bool) (tag : Nat)
   | cancel (id : Nat)
+  | issueFail (target : Nat)
+  | sleep
   deriving Repr
 
 def Ag.apply (a : Ag) : Op → Ag × List Out
@@ -50,6 +52,8 @@ def Ag.apply (a : Ag) : Op → Ag × List Out
   | .req s i t p => a.onReq s i t p
   | .resp i ok tag => a.onResp i ok tag
   | .cancel i => a.cancel i
+  | .issueFail t => a.issueFail t
+  | .sleep => (a.sleep, [])
 
 /-- Ideal bookkeeping: one table of live requests with their origin. -/
 def idealApply (a : Ag) (g : AMap Origin) : Op → AMap Origin × List Out
@@ -72,6 +76,8 @@ def idealApply (a : Ag) (g : AMap Origin) : Op → AMap Origin × List Out
     match g.get i with
     | some none => (g.del i, [.cancelled i])
     | _ => (g, [])
+  | .issueFail _ => (g, [.sendErr])     -- nothing went out: nobody is to be served
+  | .sleep => (g, [])                   -- requests in flight stay in flight
 
 /-- The real tables represent exactly the ideal table. -/
 structure Sync (a : Ag) (g : AMap Origin) : Prop where
@@ -84,6 +90,8 @@ def fresh (a : Ag) (g : AMap Origin) : Op → Prop
   | .req _ i _ _ => g.get i = none
   | .resp _ _ _ => True
   | .cancel _ => True
+  | .issueFail _ => g.get (a.next + 1) = none
+  | .sleep => True
 
 theorem sync_step {a : Ag} {g : AMap Origin} (hs : Sync a g) (o : Op) (hf : fresh a g o) :
     (a.apply o).2 = (idealApply a g o).2 ∧ Sync (a.apply o).1 (idealApply a g o).1 := by
@@ -196,6 +204,23 @@ theorem sync_step {a : Ag} {g : AMap Origin} (hs : Sync a g) (o : Op) (hf : fres
           · subst hj; simp [AMap.get_del_same]
           · simp only [AMap.get_del_ne _ _ _ hj]; exact hs.pend j
 
+  | issueFail t =>
+    simp only [fresh] at hf
+    simp only [Ag.apply, Ag.issueFail, idealApply]
+    by_cases hp : a.peers.contains t = true
+    · simp only [hp, Bool.not_true, Bool.false_eq_true, if_false]
+      refine ⟨by trivial, ⟨fun i => hs.fwd i, fun i => ?_⟩⟩
+      by_cases hi : i = a.next + 1
+      · subst hi
+        simp [AMap.get_del_same, hf]
+      · simp only [AMap.get_del_ne _ _ _ hi, AMap.get_set_ne _ _ _ _ hi]; exact hs.pend i
+    · have hp' : a.peers.contains t = false := by simpa using hp
+      simp only [hp', Bool.not_false, if_true]
+      exact ⟨by trivial, hs⟩
+  | sleep =>
+    simp only [Ag.apply, Ag.sleep, idealApply]
+    exact ⟨by trivial, ⟨hs.fwd, hs.pend⟩⟩
+
 /-- **Request ids of one agent are never reused**: no operation lowers `nextControlID`, a cancelled
     request keeps its id burnt, and every new local request gets an id above all earlier ones. -/
 theorem C39_local_ids_never_reused (a : Ag) (o : Op) :
@@ -227,6 +252,30 @@ theorem C39_local_ids_never_reused (a : Ag) (o : Op) :
     refine ⟨?_, fun _ h => by cases h⟩
     simp only [Ag.apply, Ag.cancel]
     split <;> simp
+  | issueFail t =>
+    refine ⟨?_, fun _ h => by cases h⟩
+    simp only [Ag.apply, Ag.issueFail]
+    split <;> simp
+  | sleep => exact ⟨Nat.le_refl _, fun _ h => by cases h⟩
+
+/-- the two halves of a local request compose to `issue` / `issueFail`. -/
+theorem C39_issue_is_begin_then_end (a : Ag) (t : Nat) :
+    (match a.issueBegin t with
+      | some (a', id) => a'.issueEnd t id true
+      | none => (a, [.sendErr])) = a.issue t ∧
+    (match a.issueBegin t with
+      | some (a', id) => a'.issueEnd t id false
+      | none => (a, [.sendErr])) = a.issueFail t := by
+  unfold Ag.issueBegin Ag.issue Ag.issueFail Ag.issueEnd
+  by_cases hm : t ∈ a.peers <;> simp [hm]
+
+/-- A failed write burns the id: the counter is ahead by one afterwards, nothing is pending under
+    that id, and the next request gets a strictly larger id.  Sleep / wake never touch the counter. -/
+theorem C39_failed_send_and_sleep_keep_ids_burnt (a : Ag) (t : Nat) (hp : a.peers.contains t = true) :
+    (a.issueFail t).1.next = a.next + 1 ∧ (a.issueFail t).2 = [.sendErr] ∧ a.sleep.next = a.next ∧
+      a.sleep.pending = a.pending ∧ a.sleep.fwd = a.fwd := by
+  have hm : t ∈ a.peers := by simpa using hp
+  simp [Ag.issueFail, Ag.sleep, hm]
 
 /-- Run both agents over a history; `okRun` says every request is `fresh` when it arrives. -/
 def runBoth : Ag → AMap Origin → List Op → List (List Out) × List (List Out)
